@@ -292,6 +292,17 @@ func binDrivers(o corrOpts, sum *res.Summary, r *rng.R, bin string) {
 	genModule(dir, r, n, func(i int) gen.Options {
 		return gen.Options{Ignores: i%2 == 0, TestFiles: i%3 == 0, Spelling: []int{0, 1, 3}[i%3], ForceTwin: i%2 == 1}
 	})
+	// a package whose annotations sit in a file chosen by a build constraint (cgo / !cgo): every driver must see the
+	// same variant of it (the one the environment selects)
+	for name, content := range map[string]string{
+		"cgocond/decl/with_cgo.go":    "//go:build cgo\n\npackage decl\n\n// T is annotated in the cgo build only.\n// @immutable\n// @constructor NewT\ntype T struct{ X int }\n",
+		"cgocond/decl/without_cgo.go": "//go:build !cgo\n\npackage decl\n\ntype T struct{ X int }\n",
+		"cgocond/decl/common.go":      "package decl\n\nfunc NewT() *T { return &T{X: 1} }\n",
+		"cgocond/use/use.go":          "package use\n\nimport \"exp/cgocond/decl\"\n\nfunc Use(t *decl.T) {\n\tt.X = 1\n\tt.X++\n\t_ = decl.T{}\n}\n",
+	} {
+		os.MkdirAll(filepath.Dir(filepath.Join(dir, name)), 0o755)
+		os.WriteFile(filepath.Join(dir, name), []byte(content), 0o644)
+	}
 	notTest := func(d binDiag) bool { return !strings.HasSuffix(d.File, "_test.go") }
 	base := runStandalone(bin, dir, nil, nil)
 	sum.Evaluations++
